@@ -54,7 +54,7 @@ package block
 //@   param postSubmit modifies m.headerCache.daInc, m.headerCache.daIncHas, m.dataCache.daInc, m.dataCache.daIncHas,
 //@            m.pendingHeaders.base.lastHeight, m.pendingData.base.lastHeight, durable m.store.meta, durable m.store.metaHas
 //@   nopanic
-//@   requires [m] m != nil && m.metrics != nil
+//@   requires [m] m != nil && m.metrics != nil && ctx != nil && m.logger != nil
 //@   param marshalFn(item) (bz, e) ensures [marshal] e == nil ==> val(bz) == coreda_Marshal(item)
 //@   param postSubmit(sub, res, gp) requires [success-only] res.Code == coreda.StatusSuccess
 //@   param postSubmit requires [prefix-only] sub == remaining[:res.SubmittedCount] && res.SubmittedCount <= len(remaining)
@@ -80,7 +80,7 @@ package block
 //@   modifies m.headerCache.daInc, m.headerCache.daIncHas, m.pendingHeaders.base.lastHeight,
 //@            durable m.pendingHeaders.base.store.meta[m.pendingHeaders.base.metaKey], durable m.pendingHeaders.base.store.metaHas[m.pendingHeaders.base.metaKey]
 //@   requires [success-only] res != nil && res.Code == coreda.StatusSuccess
-//@   requires [m] m != nil && m.headerCache != nil && m.pendingHeaders != nil && m.pendingHeaders.base != nil
+//@   requires [m] m != nil && m.headerCache != nil && m.pendingHeaders != nil && m.pendingHeaders.base != nil && m.metrics != nil
 //@   requires [items] forall j :: 0 <= j && j < len(submitted) ==> submitted[j] != nil
 //@   loop 1 invariant [marked] forall j :: 0 <= j && j <= rangeindex && j < len(submitted)
 //@                       ==> m.headerCache.daIncHas[hexstr(HashHdr(HdrOf(submitted[j])))] && m.headerCache.daInc[hexstr(HashHdr(HdrOf(submitted[j])))] == res.Height
@@ -99,7 +99,7 @@ package block
 //@   modifies m.dataCache.daInc, m.dataCache.daIncHas, m.pendingData.base.lastHeight,
 //@            durable m.pendingData.base.store.meta[m.pendingData.base.metaKey], durable m.pendingData.base.store.metaHas[m.pendingData.base.metaKey]
 //@   requires [success-only] res != nil && res.Code == coreda.StatusSuccess
-//@   requires [m] m != nil && m.dataCache != nil && m.pendingData != nil && m.pendingData.base != nil
+//@   requires [m] m != nil && m.dataCache != nil && m.pendingData != nil && m.pendingData.base != nil && m.metrics != nil
 //@   requires [items] forall j :: 0 <= j && j < len(submitted) ==> submitted[j] != nil && submitted[j].Data.Metadata != nil
 //@   loop 1 invariant [marked] forall j :: 0 <= j && j <= rangeindex && j < len(submitted)
 //@                       ==> m.dataCache.daIncHas[hexstr(CommitTxs(TxsId(submitted[j].Data.Txs)))] && m.dataCache.daInc[hexstr(CommitTxs(TxsId(submitted[j].Data.Txs)))] == res.Height
